@@ -79,6 +79,10 @@ pub fn run_stream(
         if i == perturb_at[0] {
             inst.perturb(0);
         }
+        if i % 64 == 5 && len % 4 == 1 {
+            // a quarter of the streams are also *observed* every 64 inputs through the read-only API
+            inst.observe();
+        }
         if i == perturb_at[1] {
             inst.perturb(1);
         }
